@@ -13,7 +13,7 @@ from ..runner import new_result, viol, bump, case_seed
 
 PID = 'C15'
 LEVEL = 'exploration'
-MODELS = ['sir', 'sis', 'threshold', 'watts', 'kofn', 'dist2', 'global', 'sirs_mixed', 'lazy', 'seir_econ']
+MODELS = ['sir', 'sis', 'threshold', 'watts', 'kofn', 'dist2', 'global', 'sirs_mixed', 'lazy', 'seir_econ', 'slow_sir']
 RULE = ('models: SIR / SIS through this API, fixed-threshold and Watts fractional-threshold contagion, k-of-n, distance-2 influence, global-field '
         'rates (influence set = all nodes), SIRS with heterogeneous non-dyadic rates; graphs n<=12 (e2) and every atlas graph with <=4 nodes (e3, quick; '
         '<=5 thorough); influence sets computed conservatively so the premise of the statement holds.  Non-trivial = >=1 event; distinct = (kind, model, '
@@ -97,6 +97,16 @@ def model(name, params):
                 return 'S' if k % 2 == 0 else 'I'
             return 'I' if k != 2 else 'S'
         return rate, choice, (lambda G, n, s, p=None: list(G.neighbors(n))), ['S', 'I']
+    if name == 'slow_sir':
+        # the same SIR-like model in a time unit 1e10 times smaller (rates of order 1e-10, horizons of order 1e10 or none): the law is
+        # scale-free, "all rates are zero" means zero, not small
+        def rate(G, n, s, p=None):
+            if s[n] == 'I':
+                return b * 1e-10
+            if s[n] == 'S':
+                return a * 1e-10 * sum(1 for v in G.neighbors(n) if s[v] == 'I') + 3e-11
+            return 0
+        return rate, (lambda G, n, s, p=None: 'I' if s[n] == 'S' else 'R'), (lambda G, n, s, p=None: list(G.neighbors(n))), ['S', 'I', 'R']
     if name == 'seir_econ':
         # an economical influence-set function, as the docstring invites ("leave out any nodes that it wouldn't have affected"): it looks at
         # what the node has just become.  S->E changes nobody's rate (empty set); E->I and I->R change the rates of the susceptible neighbours
@@ -129,7 +139,7 @@ def gen_cases(tier, seed):
         m = MODELS[k % len(MODELS)]
         out.append({'kind': 'e2', 'graph': desc, 'model': m, 'params': [r.choice([0.3, 0.7, 1.0, 2.3]), r.choice([0.3, 1.0, 1.9])],
                     'IC': [r.choice([0, 0, 1]) for _ in range(desc['n'])], 'tmin': r.choice([0, -2, 1.5]),
-                    'tmax': r.choice(['inf', 1.0, 3.0, 2]) if m in ('sir', 'threshold', 'watts', 'kofn', 'global') else r.choice([0.5, 1.5, 2]),     # span; tmin=-2 with span 2: horizon exactly 0
+                    'tmax': r.choice(['inf', 1.0, 3.0, 2]) if m in ('sir', 'threshold', 'watts', 'kofn', 'global', 'slow_sir') else r.choice([0.5, 1.5, 2]),     # span; tmin=-2 with span 2: horizon exactly 0
                     'full': r.random() < 0.5, 'seed': cs, 'infl_form': r.choice(['list', 'tuple', 'set', 'iterator', 'generator', 'dictkeys']),
                     'label_map': r.choice(['str', 'int0', 'rev_int', 'bool', 'emptystr'])})
     nmax = 4 if q else 5
@@ -203,6 +213,8 @@ def run_case(case):
     IC = {lab(i): sts[min(case['IC'][i], len(sts) - 1)] for i in range(case['graph']['n'])}
     tmin = case['tmin']
     tmax = float('inf') if case['tmax'] == 'inf' else (tmin + case['tmax'] if case['kind'] == 'e2' else case['tmax'])
+    if case['model'] == 'slow_sir' and tmax != float('inf'):
+        tmax = tmin + (tmax - tmin) * 1e10
     tag = 'Gillespie_complex_contagion|%s' % case['model']
     if form in ('iterator', 'generator'):
         bump(res, 'one_shot_influence_iterables')
